@@ -312,5 +312,87 @@ def h1_keep_alive_max(kmax: int, extra: int, ai: int, seg: int, cut: int, body: 
     kidx = {1: 1, 2: 2}[kmax]  # index into c06's table [3, 1, 2, 1000]
     if c06.QUICK and n == 3 and seg != 0:
         seg = 0
-    ok = c06.h1_pipeline(n=n, r0=r, r1=r, r2=r, seg=seg, cut=min(cut, c06.CUTMAX), ai=ai, kmax=kidx)
-    return done(ok, kmax=kmax, requests=n, app=c06.APPS[ai], seg=seg, cut=cut, body=body)
+    ok, vec = c06.pipeline(n, r, r, r, seg, min(cut, c06.CUTMAX), ai, kidx)
+    return done(ok, kmax=kmax, requests=n, app=c06.APPS[ai], seg=seg, cut=cut, body=body, why=vec.get("why", ""))
+
+
+# ------------------------------------------------------------------ worker recycling with jitter (asyncio worker_serve)
+
+
+@harness(
+    "C18",
+    dom={"m": (0, 3), "j": (0, 2), "r": (0, 2), "none": "bool", "rk": (0, 3)},
+    split={"rk": "each", "m": "each"},
+    witnesses=[{"m": 2, "j": 2, "r": 1, "none": False, "rk": 0}, {"m": 1, "j": 0, "r": 0, "none": True, "rk": 2}],
+    budget=150,
+    per_path=240,
+    bounds="asyncio worker_serve with max_requests in {None, 0..3}, max_requests_jitter 0..2 and every result r in [0, jitter] of the random draw: the worker begins its graceful exit exactly when it has taken on more than max_requests + r requests, and never when max_requests is None; the requests are HTTP/1.1 GETs, cleartext prior-knowledge HTTP/2 requests, h2c-upgraded requests or WebSocket handshakes, one per connection",
+    encodes=["hypercorn/asyncio/run.py::worker_serve", "hypercorn/asyncio/worker_context.py::WorkerContext.mark_request"],
+    stubs=["hypercorn.asyncio.run.randint replaced by a stub that records its arguments and returns the solver-chosen r", "tier C worker level"],
+)
+def worker_max_requests_jitter(m: int, j: int, r: int, none: bool, rk: int) -> bool:
+    """
+    pre: DOM(worker_max_requests_jitter, m=m, j=j, r=r, none=none, rk=rk)
+    post: _
+    """
+    enter()
+    from vf.harness.c14 import make_app
+    from vf.stubs.wsess import WSession
+
+    m = conc(m, 0, 3)
+    j = conc(j, 0, 2)
+    r = conc(r, 0, 2)
+    rk = conc(rk, 0, 3)
+    none = True if none else False
+    LIMIT = 8
+    if r > j:
+        return done(True, skipped="randint(0, j) cannot return more than j")
+    cfg = make_config(startup_timeout=5, shutdown_timeout=4, graceful_timeout=3, keep_alive_timeout=50,
+                      max_requests=None if none else m, max_requests_jitter=j)
+    s = WSession(make_app(0, 0, {}), cfg, jitter_result=r)
+    why = ""
+    if none:
+        if s.randint_calls:
+            why = "jitter drawn although max_requests is None"
+    elif s.randint_calls != [(0, j)]:
+        why = f"jitter drawn as randint{s.randint_calls!r}, expected randint(0, {j}) exactly once"
+    served = 0
+    while not why and served < LIMIT:
+        if not s.listening():
+            break
+        tr = s.connect()
+        if tr is None:
+            break
+        if rk == 0:
+            s.feed(tr, h1_request("GET", b"/q", [(b"Host", b"example.com"), (b"Connection", b"close")]))
+        elif rk == 1:
+            hc = H2Client()
+            hc.request(1, b"GET", b"/q", end_stream=True)
+            s.feed(tr, hc.take())
+        elif rk == 2:
+            hc = H2Client(upgrade=True)
+            s.feed(tr, h1_request("GET", b"/q", [(b"Host", b"example.com"), (b"Connection", b"Upgrade, HTTP2-Settings"), (b"Upgrade", b"h2c"), (b"HTTP2-Settings", hc.upgrade_settings)]))
+            s.feed(tr, hc.take())
+        else:
+            from vf.stubs.clients import ws_h1_handshake
+
+            s.feed(tr, ws_h1_handshake())
+        if rk != 0:
+            s.advance(0.05)
+            tr.peer_eof()
+        served += 1
+        s.advance(0.1)
+    if not why:
+        if none:
+            if served != LIMIT or not s.listening():
+                why = f"worker stopped listening after {served} requests although max_requests is None"
+        else:
+            want = m + r + 1
+            if served != want:
+                why = f"worker began its exit after {served} requests, expected {want} (max_requests={m}, jitter result={r})"
+    if not why and not none:
+        s.advance(10)
+        if not s.returned:
+            why = "worker did not return after reaching max_requests"
+    s.close()
+    return done(why == "", max_requests=None if none else m, jitter=j, r=r, served=served, request_kind=["HTTP/1.1", "HTTP/2 prior knowledge", "h2c upgrade", "WebSocket"][rk], why=why)
